@@ -12,6 +12,7 @@ open Spec
 inductive SpecRep where
   | num (v : Rat) | nan | inf (neg : Bool) | text (s : List Nat) | bool (b : Bool)
   | date (utc : Int) (aware : Bool)
+  | opq (tag : Nat) (rep : List Int)
   deriving DecidableEq
 
 def Key.specRep : Key → SpecRep
@@ -24,6 +25,7 @@ def Key.specRep : Key → SpecRep
   | .str s => .text s
   | .uri s => .text s
   | .date _ u tz => .date u tz.isSome
+  | .opq t r => .opq t r
 
 theorem sameKey_iff_rep (a b : Key) : sameKey a b = true ↔ a.specRep = b.specRep := by
   cases a <;> cases b <;> simp [sameKey, Key.specRep, and_comm]
@@ -80,11 +82,13 @@ disagree on this pair of keys. -/
 def keyClash (a b : Key) : Bool :=
   dictEq a b != sameKey a b || scanEq a b != sameKey a b
 
-/-- …which happens only for a boolean against a number (F15d) or between two dates (F15f). -/
+/-- …which happens only for a boolean against a number (F15d), between two dates (F15f: one with,
+one without timezone) or between two opaque values (F15k: hexBinary against base64Binary). -/
 def clashShape : Key → Key → Bool
   | .bool _, .int _ | .bool _, .dec _ | .bool _, .dbl _ _ => true
   | .int _, .bool _ | .dec _, .bool _ | .dbl _ _, .bool _ => true
   | .date .., .date .. => true
+  | .opq .., .opq .. => true
   | _, _ => false
 
 theorem boolRat_inj (a b : Bool) :
